@@ -285,7 +285,7 @@ func rowValue(count int, cols ...col) []byte {
 // TestRawRowIndexingAndRead: mutated row values through the index mapper (background goroutine) and the row reader; child process per case.
 func TestRawRowIndexingAndRead(t *testing.T) {
 	fx := rowFix(t)
-	vk.Check(t, 400, 12000, func(rt *rapid.T, c *vk.Case) {
+	vk.Check(t, 400, 6000, func(rt *rapid.T, c *vk.Case) {
 		l := &layout{b: fx.value}
 		l.add("count", 0, 4, kCount)
 		i := 4
